@@ -166,6 +166,20 @@ fn case(r: &mut Rng, idx: u64, stats: &mut Stats) -> Result<u64, String> {
 			prev = lk;
 		}
 	}
+	// the configured curve: the level goes from 0 dB at the minimum distance to -60 dB (silence) at the maximum, the easing
+	// being applied to the closeness 1 - relative distance (so an `In` easing falls off fast right behind the minimum distance)
+	if let Some(e) = g.easing {
+		let rel = (((d - g.min) / (g.max - g.min)) as f64).clamp(0.0, 1.0);
+		let db = -60.0 + 60.0 * ease_ref(e, 1.0 - rel);
+		let want = db_to_amp(db) as f32;
+		let inside = d > g.min * 1.001 && d < g.max * 0.999;
+		// (-60 dB is silence: next to it the level may already have snapped to 0)
+		let near_floor = db < -59.9 && att <= want * 1.02;
+		if inside && !near_floor && (att - want).abs() > cond_abs / g.src.0.max(1e-3) + 5e-4 * want.max(1e-3) {
+			return Err(format!("attenuation at distance {} (range {}..{}, {:?}) is {} but the configured curve gives {} ({} dB) [{:?}]", d, g.min, g.max, e, att, want, db, g0));
+		}
+		stats.curve_checks += 1;
+	}
 	// ---- direction: per-ear gains
 	if g.strength > 0.0 && att > 1e-4 && d > 0.5 {
 		let (el, er) = (l / (mono * att), rr / (mono * att));
@@ -202,6 +216,21 @@ fn case(r: &mut Rng, idx: u64, stats: &mut Stats) -> Result<u64, String> {
 	Ok(class)
 }
 
+/// every combination of attenuation on/off and panning on/off: the listener rule does not depend on them
+fn any_builder_params(r: &mut Rng) -> (bool, Option<f32>) {
+	(r.chance(0.5), if r.chance(0.5) { Some(*r.pick(&[0.0f32, 1.0, 0.3])) } else { None })
+}
+fn mk_builder(p: (bool, Option<f32>)) -> SpatialTrackBuilder {
+	let mut b = SpatialTrackBuilder::new();
+	if p.0 {
+		b = b.attenuation_function(None::<Easing>);
+	}
+	if let Some(s) = p.1 {
+		b = b.spatialization_strength(s);
+	}
+	b
+}
+
 /// listener missing (dropped before / after), distance-mapped parameters (also on descendants), tweens
 fn history_case(r: &mut Rng, stats: &mut Stats) -> Result<u64, String> {
 	let mut class = 1 << 12;
@@ -213,7 +242,8 @@ fn history_case(r: &mut Rng, stats: &mut Stats) -> Result<u64, String> {
 		0 => {
 			// listener dropped while the track plays: silence from the next callback on
 			let l = rig.mgr.add_listener(lp, Quat::IDENTITY).map_err(|_| "l")?;
-			let mut t = rig.mgr.add_spatial_sub_track(&l, lp + Vec3::new(0.0, 0.0, 2.0), SpatialTrackBuilder::new()).map_err(|_| "t")?;
+			let bp = any_builder_params(r);
+			let mut t = rig.mgr.add_spatial_sub_track(&l, lp + Vec3::new(0.0, 0.0, 2.0), mk_builder(bp)).map_err(|_| "t")?;
 			let _s = t.play(stereo_dc(DC, DC)).map_err(|_| "p")?;
 			let b = rig.callback(IBS * 2).to_vec();
 			if b.iter().all(|x| *x == 0.0) {
@@ -223,10 +253,10 @@ fn history_case(r: &mut Rng, stats: &mut Stats) -> Result<u64, String> {
 			if r.chance(0.5) {
 				class |= 1 << 4;
 				let l2 = rig.mgr.add_listener(lp + Vec3::X, Quat::IDENTITY).map_err(|_| "l2")?;
-				let mut n = t.add_spatial_sub_track(&l2, lp + Vec3::new(0.0, 0.0, 1.0), SpatialTrackBuilder::new()).map_err(|_| "n")?;
+				let mut n = t.add_spatial_sub_track(&l2, lp + Vec3::new(0.0, 0.0, 1.0), mk_builder(any_builder_params(r))).map_err(|_| "n")?;
 				let mut rig2 = Rig::simple(SR, IBS);
 				let la = rig2.mgr.add_listener(lp, Quat::IDENTITY).map_err(|_| "l")?;
-				let mut ta = rig2.mgr.add_spatial_sub_track(&la, lp + Vec3::new(0.0, 0.0, 2.0), SpatialTrackBuilder::new()).map_err(|_| "t")?;
+				let mut ta = rig2.mgr.add_spatial_sub_track(&la, lp + Vec3::new(0.0, 0.0, 2.0), mk_builder(bp)).map_err(|_| "t")?;
 				let _sa = ta.play(stereo_dc(DC, DC)).map_err(|_| "p")?;
 				let _s2 = n.play(stereo_dc(DC, DC)).map_err(|_| "p")?;
 				rig.callback(IBS * 2);
@@ -256,7 +286,7 @@ fn history_case(r: &mut Rng, stats: &mut Stats) -> Result<u64, String> {
 			let id = l.id();
 			drop(l);
 			rig.callback(IBS);
-			let mut t = rig.mgr.add_spatial_sub_track(id, lp, SpatialTrackBuilder::new()).map_err(|_| "t")?;
+			let mut t = rig.mgr.add_spatial_sub_track(id, lp, mk_builder(any_builder_params(r))).map_err(|_| "t")?;
 			let _s = t.play(stereo_dc(DC, DC)).map_err(|_| "p")?;
 			for _ in 0..3 {
 				if rig.callback(IBS * 2).iter().any(|x| *x != 0.0) {
@@ -354,6 +384,7 @@ pub struct Stats {
 	pub renderings: u64,
 	pub direction_checks: u64,
 	pub distance_param_checks: u64,
+	pub curve_checks: u64,
 }
 
 pub fn run(ctx: &mut Ctx) {
@@ -382,6 +413,7 @@ pub fn run(ctx: &mut Ctx) {
 	ctx.count("renderings", stats.renderings);
 	ctx.count("direction_relation_checks", stats.direction_checks);
 	ctx.count("distance_mapped_parameter_checks", stats.distance_param_checks);
+	ctx.count("attenuation_curve_checks", stats.curve_checks);
 	ctx.sample(jobj! {"monitor" => "relations between renderings", "note" => "random listener pose, emitter position (incl. coincident, axis-aligned, inside min, beyond max), distance range, attenuation easing, strength {0,0.3,0.5,0.75,1}; same-distance, radial sweep, mirror, rigid motion, listener dropped/missing, FromListenerDistance on own/descendant/nested-spatial tracks, pose tweens"});
 }
 
